@@ -4,7 +4,7 @@ namespace PydraModel.Graph
 /-- Invariant of every `DiGraph` reached by non-raising calls. -/
 structure Inv (g : G) : Prop where
   nodup  : g.nodes.Nodup
-  closed : ∀ e ∈ g.edges, e.1 ∈ g.nodes ∨ e.1 ∈ g.wip
+  closed : ∀ e ∈ g.edges, e.2 ∈ g.nodes → e.1 ∈ g.nodes ∨ e.1 ∈ g.wip
   valid  : ∀ l, g.sorted = some l → l.Perm g.nodes ∧ Topo g l
 
 theorem topo_congr {g g' : G} (he : g.edges = g'.edges) (hw : g.wip = g'.wip) {l : List Id}
@@ -18,7 +18,7 @@ theorem inv_empty : Inv G.empty :=
 
 /-- shared tail of the re-sorting operations -/
 theorem inv_resort {g1 : G} {pre l : List Id} (hn : g1.nodes.Nodup)
-    (hc : ∀ e ∈ g1.edges, e.1 ∈ g1.nodes ∨ e.1 ∈ g1.wip)
+    (hc : ∀ e ∈ g1.edges, e.2 ∈ g1.nodes → e.1 ∈ g1.nodes ∨ e.1 ∈ g1.wip)
     (hpre : pre ≠ [] → pre.Perm g1.nodes) (hs : sortFrom g1 pre = some l) :
     Inv { g1 with sorted := some l } := by
   obtain ⟨ht, hp⟩ := sortFrom_spec g1 pre l hs
@@ -31,7 +31,7 @@ theorem inv_resort {g1 : G} {pre l : List Id} (hn : g1.nodes.Nodup)
   · simp only [hpe, if_false] at hp; exact hp.trans (hpre hpe)
 
 theorem inv_unsorted {g1 : G} (hn : g1.nodes.Nodup)
-    (hc : ∀ e ∈ g1.edges, e.1 ∈ g1.nodes ∨ e.1 ∈ g1.wip) : Inv { g1 with sorted := none } :=
+    (hc : ∀ e ∈ g1.edges, e.2 ∈ g1.nodes → e.1 ∈ g1.nodes ∨ e.1 ∈ g1.wip) : Inv { g1 with sorted := none } :=
   ⟨hn, hc, by intro l hl; simp at hl⟩
 
 theorem inv_addNodes {g g' : G} (hi : Inv g) (new : List Id) (h : addNodes g new = (.ok (), g')) : Inv g' := by
@@ -41,22 +41,30 @@ theorem inv_addNodes {g g' : G} (hi : Inv g) (new : List Id) (h : addNodes g new
   · simp at h
   · rename_i hnd
     simp only [Decidable.not_not] at hnd
-    have hc : ∀ e ∈ g.edges, e.1 ∈ g.nodes ++ new ∨ e.1 ∈ g.wip := by
-      intro e he; rcases hi.closed e he with h1 | h1
-      · exact Or.inl (List.mem_append_left _ h1)
-      · exact Or.inr h1
-    cases hs : g.sorted with
-    | none =>
-      simp [hs] at h; subst h
-      exact ⟨hnd, hc, by intro l hl; simp at hl⟩
-    | some s =>
-      simp only [hs] at h
-      split at h
-      · rename_i l hl
-        simp at h; subst h
-        have hpre : (s ++ new).Perm (g.nodes ++ new) := List.Perm.append_right new (hi.valid s hs).1
-        exact inv_resort (g1 := { g with nodes := g.nodes ++ new, sorted := some s }) hnd hc (fun _ => hpre) hl
-      · simp at h
+    split at h
+    · simp at h
+    · rename_i hreuse
+      simp only [List.any_eq_true, Bool.or_eq_true, List.contains_eq_mem, decide_eq_true_eq, beq_iff_eq,
+        not_exists, not_and, not_or] at hreuse
+      have hc : ∀ e ∈ g.edges, e.2 ∈ g.nodes ++ new → e.1 ∈ g.nodes ++ new ∨ e.1 ∈ g.wip := by
+        intro e he h2
+        rcases List.mem_append.mp h2 with h2 | h2
+        · rcases hi.closed e he h2 with h1 | h1
+          · exact Or.inl (List.mem_append_left _ h1)
+          · exact Or.inr h1
+        · exact absurd rfl ((hreuse e.2 h2).2 e he).2
+      cases hs : g.sorted with
+      | none =>
+        simp [hs] at h; subst h
+        exact ⟨hnd, hc, by intro l hl; simp at hl⟩
+      | some s =>
+        simp only [hs] at h
+        split at h
+        · rename_i l hl
+          simp at h; subst h
+          have hpre : (s ++ new).Perm (g.nodes ++ new) := List.Perm.append_right new (hi.valid s hs).1
+          exact inv_resort (g1 := { g with nodes := g.nodes ++ new, sorted := some s }) hnd hc (fun _ => hpre) hl
+        · simp at h
 
 theorem inv_addEdges {g g' : G} (hi : Inv g) (new : List (Id × Id)) (h : addEdges g new = (.ok (), g')) : Inv g' := by
   unfold addEdges at h
@@ -64,8 +72,8 @@ theorem inv_addEdges {g g' : G} (hi : Inv g) (new : List (Id × Id)) (h : addEdg
   · simp at h
   · rename_i hchk
     simp only [List.any_eq_true, Bool.not_eq_true', not_exists, not_and, Bool.not_eq_false, Bool.and_eq_true, List.contains_eq_mem, decide_eq_true_eq] at hchk
-    have hc : ∀ e ∈ g.edges ++ new, e.1 ∈ g.nodes ∨ e.1 ∈ g.wip := by
-      intro e he; exact Or.inl (hchk e he).1
+    have hc : ∀ e ∈ g.edges ++ new, e.2 ∈ g.nodes → e.1 ∈ g.nodes ∨ e.1 ∈ g.wip := by
+      intro e he _; exact Or.inl (hchk e he).1
     cases hs : g.sorted with
     | none =>
       simp [hs] at h; subst h
@@ -141,9 +149,10 @@ theorem inv_removeNodes {g g' : G} (hi : Inv g) (ns : List Id) (c : Bool)
   · rename_i g1 hm
     obtain ⟨he, hsd, hw, hnodes⟩ := markLoop_ok c ns g g1 hm
     have hn1 : g1.nodes.Nodup := by rw [hnodes]; exact foldl_erase_nodup ns _ hi.nodup
-    have hc1 : ∀ e ∈ g1.edges, e.1 ∈ g1.nodes ∨ e.1 ∈ g1.wip := by
-      intro e hmem; rw [he] at hmem
-      rcases hi.closed e hmem with h1 | h1
+    have hc1 : ∀ e ∈ g1.edges, e.2 ∈ g1.nodes → e.1 ∈ g1.nodes ∨ e.1 ∈ g1.wip := by
+      intro e hmem h2; rw [he] at hmem
+      have h2' : e.2 ∈ g.nodes := foldl_erase_mem ns g.nodes e.2 (by rw [← hnodes]; exact h2)
+      rcases hi.closed e hmem h2' with h1 | h1
       · rcases mem_foldl_erase_or ns g.nodes e.1 h1 with h2 | h2
         · exact Or.inr (by rw [hw]; exact List.mem_append_right _ h2)
         · exact Or.inl (by rw [hnodes]; exact h2)
@@ -202,9 +211,9 @@ theorem inv_removeConnections : ∀ (ns : List Id) (g g' : G), Inv g →
     · simp at h
     · apply ih _ _ _ h
       refine ⟨hi.nodup, ?_, ?_⟩
-      · intro e he
+      · intro e he h2
         simp only [List.mem_filter, bne_iff_ne, ne_eq] at he
-        rcases hi.closed e he.1 with h1 | h1
+        rcases hi.closed e he.1 h2 with h1 | h1
         · exact Or.inl h1
         · exact Or.inr ((List.mem_erase_of_ne he.2).mpr h1)
       · intro l hl
@@ -215,6 +224,122 @@ theorem inv_removeConnections : ∀ (ns : List Id) (g g' : G), Inv g →
         rcases ht l1 x l2 hsplit e he.1 hx with h1 | h1
         · exact Or.inl h1
         · exact Or.inr ((List.mem_erase_of_ne he.2).mpr h1)
+
+theorem not_mem_foldl_erase : ∀ (ns l : List Id) (a : Id), l.Nodup → a ∈ ns →
+    a ∉ ns.foldl (fun acc n => acc.erase n) l := by
+  intro ns; induction ns with
+  | nil => intro l a _ h; simp at h
+  | cons n ns ih =>
+    intro l a hl ha hmem
+    rcases List.mem_cons.mp ha with rfl | ha
+    · have h1 := foldl_erase_mem ns (l.erase a) a hmem
+      exact (List.Nodup.mem_erase_iff hl).mp h1 |>.1 rfl
+    · exact ih (l.erase n) a (hl.erase n) ha hmem
+
+/-- the fields a non-raising `remove_nodes` call leaves behind -/
+theorem removeNodes_ok_fields {g g' : G} (ns : List Id) (c : Bool) (h : removeNodes g ns c = (.ok (), g')) :
+    g'.edges = g.edges ∧ g'.wip = g.wip ++ ns ∧ g'.nodes = ns.foldl (fun acc n => acc.erase n) g.nodes := by
+  unfold removeNodes at h
+  split at h
+  · simp at h
+  · rename_i g1 hm
+    obtain ⟨he, _, hw, hnodes⟩ := markLoop_ok c ns g g1 hm
+    cases hs : g1.sorted with
+    | none => simp [hs] at h; subst h; exact ⟨he, hw, hnodes⟩
+    | some s =>
+      simp only [hs] at h
+      split at h
+      · simp at h; subst h; exact ⟨he, hw, hnodes⟩
+      · split at h
+        · simp at h
+        · split at h
+          · simp at h; subst h; exact ⟨he, hw, hnodes⟩
+          · simp at h
+
+/-- one `remove_previous_connections` step keeps the invariant when the node's outgoing connections do not
+    reach a remaining node -/
+theorem inv_removePrev1 {g g' : G} (hi : Inv g) (d : Id)
+    (hout : ∀ e ∈ g.edges, e.1 = d → e.2 ∉ g.nodes)
+    (h : removePrevConnections1 g d = (.ok (), g')) :
+    Inv g' ∧ g'.nodes = g.nodes ∧ (∀ e ∈ g'.edges, e ∈ g.edges) := by
+  unfold removePrevConnections1 at h
+  split at h
+  · simp at h
+  · simp at h; subst h
+    refine ⟨⟨hi.nodup, ?_, ?_⟩, rfl, ?_⟩
+    · intro e he h2
+      simp only [List.mem_filter, bne_iff_ne, ne_eq] at he
+      rcases hi.closed e he.1 h2 with h1 | h1
+      · exact Or.inl h1
+      · by_cases hd : e.1 = d
+        · exact absurd h2 (hout e he.1 hd)
+        · exact Or.inr ((List.mem_erase_of_ne hd).mpr h1)
+    · intro l hl
+      obtain ⟨hp, ht⟩ := hi.valid l hl
+      refine ⟨hp, ?_⟩
+      intro l1 x l2 hsplit e he hx
+      simp only [List.mem_filter, bne_iff_ne, ne_eq] at he
+      rcases ht l1 x l2 hsplit e he.1 hx with h1 | h1
+      · exact Or.inl h1
+      · by_cases hd : e.1 = d
+        · have hxn : x ∈ g.nodes := hp.subset (by rw [hsplit]; simp)
+          exact absurd (hx ▸ hxn) (hout e he.1 hd)
+        · exact Or.inr ((List.mem_erase_of_ne hd).mpr h1)
+    · intro e he
+      exact (List.mem_filter.mp he).1
+
+theorem inv_removePrev : ∀ (ds : List Id) (g g' : G), Inv g →
+    (∀ e ∈ g.edges, e.1 ∈ ds → e.2 ∉ g.nodes) →
+    removePrevConnections g ds = (.ok (), g') → Inv g' := by
+  intro ds
+  induction ds with
+  | nil => intro g g' hi _ h; simp [removePrevConnections] at h; subst h; exact hi
+  | cons d ds ih =>
+    intro g g' hi hout h
+    unfold removePrevConnections at h
+    split at h
+    · rename_i g1 h1
+      obtain ⟨hi1, hn1, he1⟩ := inv_removePrev1 hi d (fun e he hd => hout e he (by simp [hd])) h1
+      apply ih g1 g' hi1 _ h
+      intro e he hd
+      rw [hn1]
+      exact hout e (he1 e he) (by simp [hd])
+    · rename_i r hne
+      cases hr : removePrevConnections1 g d with
+      | mk o g1 =>
+        cases o with
+        | ok u => cases u; exact absurd hr (by intro hh; exact hne g1 hh)
+        | error e => rw [hr] at h; simp at h
+
+theorem inv_removeSuccessors {g g' : G} (hi : Inv g) (n : Id)
+    (h : removeSuccessors g n = (.ok (), g')) : Inv g' := by
+  unfold removeSuccessors at h
+  simp only at h
+  split at h
+  · simp at h
+  · rename_i g1 h1
+    have hi1 := inv_removeConnections [n] g g1 hi h1
+    split at h
+    · simp at h
+    · rename_i hcl
+      simp only [Bool.not_eq_true, Bool.not_eq_false] at hcl
+      split at h
+      · simp at h
+      · rename_i g2 h2
+        have hi2 := inv_removeNodes hi1 (toRemove g n) false h2
+        obtain ⟨he2, hw2, hn2⟩ := removeNodes_ok_fields (toRemove g n) false h2
+        apply inv_removePrev (toRemove g n) g2 g' hi2 _ h
+        intro e he hd hmem
+        rw [he2] at he
+        rw [hn2] at hmem
+        have hmem1 : e.2 ∈ g1.nodes := foldl_erase_mem _ _ _ hmem
+        unfold succClosed at hcl
+        simp only [List.all_eq_true, Bool.or_eq_true, Bool.not_eq_true', List.contains_eq_mem,
+          decide_eq_false_iff_not, decide_eq_true_eq] at hcl
+        rcases hcl e he with (h3 | h3) | h3
+        · exact h3 hd
+        · exact h3 hmem1
+        · exact not_mem_foldl_erase _ _ _ hi1.nodup h3 hmem
 
 theorem inv_readSorted {g g' : G} (hi : Inv g) {l : List Id} (h : readSorted g = (.ok l, g')) :
     Inv g' ∧ g'.sorted = some l := by
@@ -255,6 +380,11 @@ theorem inv_stepOk {g g' : G} (hi : Inv g) (op : Op) (h : stepOk g op = some g')
     simp only [stepOk] at h
     split at h
     · rename_i l g1 heq; simp at h; subst h; exact (inv_readSorted hi heq).1
+    · simp at h
+  | removeSuccessors n =>
+    simp only [stepOk] at h
+    split at h
+    · rename_i u g1 heq; simp at h; subst h; cases u; exact inv_removeSuccessors hi n heq
     · simp at h
 
 theorem inv_runOk : ∀ (ops : List Op) (g g' : G), Inv g → runOk ops g = some g' → Inv g' := by
